@@ -51,9 +51,14 @@ fn addr(r: &u32) -> usize {
 // ================================================================================================
 // C02
 
-fn coord_values(dim: usize, stride: usize, len: usize, for_row: bool) -> Vec<usize> {
-    let mut v: Vec<usize> = (0..=dim + 2).collect();
-    v.extend([usize::MAX, usize::MAX - 1, usize::MAX / 2, usize::MAX / 2 + 1, 1usize << 32, 1usize << 63]);
+fn coord_values(dim: usize, stride: usize, len: usize, for_row: bool, small: bool) -> Vec<usize> {
+    let mut v: Vec<usize> = (0..=dim + if small { 1 } else { 2 }).collect();
+    if small {
+        v.extend([usize::MAX, 1usize << 63]);
+    } else {
+        v.extend([usize::MAX, usize::MAX - 1, usize::MAX / 2, usize::MAX / 2 + 1, 1usize << 32, 1usize << 63]);
+    }
+    let len = if small { len.min(2) } else { len };
     if for_row && stride > 0 {
         // rows r with r*stride wrapping to an in-range offset p
         for p in 0..len.min(8) {
@@ -63,7 +68,7 @@ fn coord_values(dim: usize, stride: usize, len: usize, for_row: bool) -> Vec<usi
                 v.push(r);
             }
         }
-        for j in 1..4usize {
+        for j in 1..(if small { 2 } else { 4usize }) {
             v.push((usize::MAX / stride).wrapping_mul(j).wrapping_add(1));
         }
     } else if stride > 0 {
@@ -157,8 +162,9 @@ fn c02_receiver(ctx: &mut Ctx, pshape: (usize, usize), win: Win, rk: u8) {
     let pos = root.sub(win.0, win.1).expect("harness: valid window");
     let (wc, wr) = pos.size;
     let len_in = if wr == 0 { 0 } else { (wr - 1) * pc + wc };
-    let cs = coord_values(wc, pc, len_in, false);
-    let rs = coord_values(wr, pc, len_in, true);
+    let small = ctx.scale == Scale::Miri;
+    let cs = coord_values(wc, pc, len_in, false, small);
+    let rs = coord_values(wr, pc, len_in, true, small);
     let kinds = ["TooDee", "TooDeeView", "TooDeeViewMut", "TooDeeView::new", "TooDeeViewMut::new"];
     let kind = kinds[rk as usize];
     for &c in &cs {
@@ -207,7 +213,7 @@ fn c02_receiver(ctx: &mut Ctx, pshape: (usize, usize), win: Win, rk: u8) {
 }
 
 pub fn run_c02(ctx: &mut Ctx) {
-    let n_owned = nsel(ctx, 3, 3, 3, 6, 10);
+    let n_owned = nsel(ctx, 2, 3, 3, 6, 10);
     let n_par = nsel(ctx, 2, 3, 3, 4, 6);
     for shape in shapes(n_owned) {
         for rk in [0u8, 3, 4] {
@@ -452,8 +458,8 @@ fn all_pairs(dim_c: usize, dim_r: usize) -> Vec<Win> {
 
 pub fn run_c03(ctx: &mut Ctx) {
     let n1 = nsel(ctx, 2, 3, 3, 5, 7);
-    let n2 = nsel(ctx, 2, 2, 2, 3, 4);
-    let n3 = nsel(ctx, 0, 2, 2, 3, 3);
+    let n2 = nsel(ctx, 1, 2, 2, 3, 4);
+    let n3 = nsel(ctx, 0, 1, 2, 3, 3);
     // depth 1: every (start,end) pair, valid and invalid
     for shape in shapes(n1) {
         for (root_kind, m) in [(0u8, false), (0, true), (1, false), (2, false), (2, true)] {
